@@ -21,7 +21,7 @@ claim("C13", "fault injection by crash-point enumeration over generated commit h
   "For generated histories every durable write unit of the interrupted commit(s) is used as a crash point (complete enumeration per interrupted commit): the surviving database must reopen at the old or new version with exactly that version's hash and content in all stores, replay must reproduce the uninterrupted hash, and retained versions must stay loadable. One case in five runs a generated chain history on a whole application instead: every prefix of the Commit's write log is applied to a clone of the pre-commit database, a new application must open it at the old or new height with that height's app hash, and re-executing the interrupted block must give the uninterrupted results and hash.",
   "atomic batch writes assumed; crash = process death between durable write units; two known findings (prune of the last flushed version when keepRecent=0; partial first commit) are excluded by their exact predicates and reported as KNOWN-FINDING",
   "DESIGN.md §4 C13")
-claim("C15", "stateful model-based testing (rapid programs vs. stack-of-sorted-maps model) + concurrent histories checked for linearizability (porcupine) and under -race", "exploration",
+claim("C15", "stateful model-based testing (rapid programs vs. stack-of-sorted-maps model) + concurrent histories checked for linearizability (porcupine), half of them under a harness-owned schedule (parent reads held while the other thread's operation starts), and under -race", "exploration",
   "Generated programs of get/has/set/delete/iterators (drained and kept open across writes)/write/wrap/discard over nested cache wrappers on MemDB, IAVL, prefix and cache-multistore bases are compared step by step with an overlay model incl. parent-unchanged-until-Write and Write result; concurrent goroutine programs on one wrapper must be linearizable per key; the thorough tier runs under the race detector.",
   "goroutine schedules are sampled, not enumerated; lower wrappers are only read while a higher one is alive; Write/discard with no iterator open",
   "DESIGN.md §4 C15")
